@@ -441,7 +441,7 @@ impl RenderTableRow {
             };
             // Skip any zero-width columns
             if col_width > 0 {
-                cell.col_width = Some(col_width + cell.colspan - 1);
+                cell.col_width = Some(col_width.saturating_add(cell.colspan.saturating_sub(1)));
                 let style = cell.style.clone();
                 result.push(RenderNode::new_styled(
                     RenderNodeInfo::TableCell(cell),
